@@ -344,6 +344,39 @@ def value_src(v) -> str:
     raise AssertionError(v)
 
 
+def variant_src(rng, t, v) -> str:
+    """Michelson source of v in one of the notations pytezos accepts for the same value: '%default' suffix on an
+    address, RFC3339 text for a timestamp, the optimized bytes form of address / key_hash / key / signature / chain_id."""
+    import datetime
+    k = v[0]
+    n = t[0]
+    if n == 'pair':
+        return f'(Pair {variant_src(rng, t[1], v[1])} {variant_src(rng, t[2], v[2])})'
+    if n == 'option' and k == 'some':
+        return f'(Some {variant_src(rng, t[1], v[1])})'
+    if n == 'or':
+        return f'({"Left" if k == "left" else "Right"} {variant_src(rng, t[1] if k == "left" else t[2], v[1])})'
+    r = rng.random()
+    if n == 'timestamp' and r < 0.3 and 0 <= v[1] <= 253402300799:
+        return '"' + datetime.datetime.fromtimestamp(v[1], datetime.timezone.utc).strftime('%Y-%m-%dT%H:%M:%SZ') + '"'
+    if n == 'address':
+        if r < 0.2 and v[3] is None:
+            return value_src(v)[:-1] + '%default"'
+        if r < 0.35:
+            kind, h, ep = v[1], v[2], v[3]
+            raw = (b'\x00' + bytes([int(kind[2]) - 1]) + h) if kind.startswith('tz') else (bytes([{'KT1': 1, 'sr1': 3}[kind]]) + h + b'\x00')
+            return '0x' + (raw + (ep or '').encode('ascii')).hex()
+    if n == 'key_hash' and r < 0.2:
+        return '0x' + (bytes([CURVES.index(v[1])]) + v[2]).hex()
+    if n == 'key' and r < 0.2:
+        return '0x' + (bytes([CURVES.index(v[1])]) + v[2]).hex()
+    if n == 'chain_id' and r < 0.2:
+        return '0x' + v[1].hex()
+    if n == 'signature' and r < 0.2 and len(v[1]) == 64:
+        return '0x' + v[1].hex()
+    return value_src(v)
+
+
 def elt_src(v) -> str:
     """A value as an element of a { ... ; ... } sequence (no outer parentheses there)."""
     s = value_src(v)
